@@ -11,7 +11,7 @@ package collect
 // ---------------------------------------------------------------------------------------------
 
 //@ contract NewStaticBiMap
-//@   shape sig=(pairs iter.Seq2[K, V],expectedSize int)( StaticBiMap[K, V], error);loops=range;lits=0
+//@   shape sig=(pairs iter.Seq2[K, V],expectedSize int)( StaticBiMap[K, V], error);loops=range;lits=0;fv=
 //@   props C13
 //@   requires expectedSize >= 0
 //@   ensures @rejected: result1 != nil ==> result0 == nil
@@ -38,25 +38,25 @@ package collect
 
 // Lookups are plain map reads (nil-safe); Inverse is the linked partner.
 //@ contract (*staticBiMap).GetExists
-//@   shape sig=(m *staticBiMap[K, V])(key K)( V, bool);loops=;lits=0
+//@   shape sig=(m *staticBiMap[K, V])(key K)( V, bool);loops=;lits=0;fv=
 //@   props C13
 //@   ensures m == nil ==> !result1
 //@   ensures m != nil ==> result1 == (key in m.contents) && (result1 ==> result0 == m.contents[key])
 //@   assigns nothing
 //@ contract (*staticBiMap).Inverse
-//@   shape sig=(m *staticBiMap[K, V])()( StaticBiMap[V, K]);loops=;lits=0
+//@   shape sig=(m *staticBiMap[K, V])()( StaticBiMap[V, K]);loops=;lits=0;fv=
 //@   props C13
 //@   ensures m == nil ==> result == nil
 //@   ensures m != nil ==> result == m.inverse
 //@   assigns nothing
 //@ contract (*staticBiMap).AsMap
-//@   shape sig=(m *staticBiMap[K, V])()( map[K]V);loops=;lits=0
+//@   shape sig=(m *staticBiMap[K, V])()( map[K]V);loops=;lits=0;fv=
 //@   props C13
 //@   ensures m == nil ==> result == nil
 //@   ensures m != nil ==> result == m.contents
 //@   assigns nothing
 //@ contract (*staticBiMap).Len
-//@   shape sig=(m *staticBiMap[K, V])()( int);loops=;lits=0
+//@   shape sig=(m *staticBiMap[K, V])()( int);loops=;lits=0;fv=
 //@   props C13
 //@   ensures m == nil ==> result == 0
 //@   ensures m != nil ==> result == len(m.contents)
